@@ -331,7 +331,9 @@ where
             }
             if is_terminal {
                 for (i, property) in properties.iter().enumerate() {
-                    if ebits.contains(i) {
+                    // Keep the first counterexample: a property that already has one was not
+                    // evaluated along this path, so its bit says nothing about this path.
+                    if ebits.contains(i) && !discoveries.contains_key(property.name) {
                         // Races other threads, but that's fine.
                         discoveries.insert(property.name, state_fp);
                     }
